@@ -63,7 +63,11 @@ def run_case(ctx, S, a, b, r, fracs, subclass=False):
     probs = []
     span_us = (b - a) // US
     try:
-        s = S.TimeScale().domain([W(a), W(b)]).range(list(r))
+        if hash((a, b)) % 4 == 1:
+            s = S.TimeScale().range(list(r)).domain([W(a), W(b)])  # the range first, then the domain
+            ctx.path("range-set-before-domain")
+        else:
+            s = S.TimeScale().domain([W(a), W(b)]).range(list(r))
         lin = S.LinearScale().domain([float(Fraction((a - EPOCH) // US, 1000)), float(Fraction((b - EPOCH) // US, 1000))]).range(list(r))
         ts = []
         for f in fracs:
@@ -154,23 +158,41 @@ def run_history(ctx, tm, S, case):
     v0 = tm.n_violations
     probs = []
     try:
-        objs = [S.TimeScale().domain(case["domain"]).range(list(case["range"]))]
+        if hash(repr(case["range"])) % 3 == 0:
+            objs = [S.TimeScale().range(list(case["range"])).domain(case["domain"])]  # range first, then the domain
+        else:
+            objs = [S.TimeScale().domain(case["domain"]).range(list(case["range"]))]
+        want = [{"domain": list(case["domain"]), "range": list(case["range"])}]  # what the caller last set, per object
         for op in [["start"]] + case["ops"]:
             o = objs[-1] if op[0] != "copy" else objs[0]
+            wi = want[-1] if op[0] != "copy" else want[0]
             if op[0] == "range":
                 o.range(list(op[1]))
+                wi["range"] = list(op[1])
             elif op[0] == "range-edit-in-place":
                 lst = o.range()
                 if isinstance(lst, list) and lst[1 - op[1]] != op[2]:
                     lst[op[1]] = op[2]
                     o.range(lst)
+                    wi["range"] = list(lst)
                     ctx.path("range-list-edited-in-place-and-set-again")
             elif op[0] == "domain":
                 o.domain(op[1])
+                wi["domain"] = list(op[1])
             elif op[0] == "nice":
                 o.nice(op[1]) if op[1] is not None else o.nice()
+                wi["domain"] = None  # nice() moves the domain (C14); the range stays
             elif op[0] == "copy":
                 objs.append(o.copy())
+                want.append({"domain": wi["domain"] and list(wi["domain"]), "range": list(wi["range"])})
+            # one setter leaves what the others set: every object still reports the range (and, unless niced, the domain) it was given
+            for x, w in zip(objs, want):
+                if list(x.range()) != w["range"]:
+                    probs.append("after %s the scale reports range %r, the caller set %r" % (op[0], list(x.range()), w["range"]))
+                if w["domain"] is not None and list(x.domain()) != w["domain"]:
+                    probs.append("after %s the scale reports domain %r, the caller set %r" % (op[0], [t.isoformat() for t in x.domain()], [t.isoformat() for t in w["domain"]]))
+            if probs:
+                break
             for x in objs:
                 d = x.domain()
                 if d[0] == d[1]:
@@ -185,7 +207,7 @@ def run_history(ctx, tm, S, case):
         vs = tm.violations[-(tm.n_violations - v0):][:3]
         ctx.judge("history", VIOLATED, case, finding=vs + probs, key="history:" + vs[0]["kind"] if vs else "history")
     elif probs:
-        ctx.judge("history", VIOLATED, case, finding=probs, key="history:raised")
+        ctx.judge("history", VIOLATED, case, finding=probs, key="history:setter-interference" if probs[0].startswith("after ") else "history:raised")
     else:
         ctx.judge("history", HELD, case if len(ctx.samples) < 1 else None, nontrivial=True, dig=repr(case)[:3000])
 
